@@ -233,7 +233,7 @@ class FlowFields(ImageBatch):
         axes = self._axes
         align_corners = axes is Axes.CUBE_CORNERS
         flow = self.axes(Axes.CUBE_CORNERS if align_corners else Axes.CUBE)
-        data = self.tensor()
+        data = flow.tensor()
         data = U.expv(
             data,
             scale=scale,
